@@ -107,7 +107,7 @@ def roundtrip(ctx, case, cfgd, cfg, T, obj, origin, expect=None, inp=None):
 
 
 def int_leaves(node, v, path=()):
-    """Yield (path, width_bits, signed) for every integer-like leaf of value v (not below unions, not bit-fields)."""
+    """Yield (path, width_bits, signed) for every integer-like leaf of value v (not below unions)."""
     k = node["k"]
     if k == "int":
         size, signed = ALL_INTS[node["t"]]
@@ -125,6 +125,9 @@ def int_leaves(node, v, path=()):
     elif k == "struct" and not node["union"]:
         for i, f in enumerate(node["fields"]):
             if f.get("bits"):
+                # a bit-field is an integer field of f["bits"] bits (values are unsigned): what does not fit must be
+                # rejected too, it would end up in the neighbouring fields
+                yield path + (model.fkey(i, f),), f["bits"], False, {"k": "bitfield", "enum": f["t"]["k"] == "enum"}
                 continue
             yield from int_leaves(f["t"], v[model.fkey(i, f)], path + (model.fkey(i, f),))
 
@@ -147,6 +150,8 @@ def overflow(ctx, case, cfgd, cfg, T, v, rng):
             cands = [1 << (bits - 1), -(1 << (bits - 1)) - 1, 1 << bits]
         else:
             cands = [1 << bits, -1, (1 << bits) + 5]
+        if leaf["k"] == "bitfield" and leaf["enum"]:
+            cands = [1 << bits, (1 << bits) + 5]   # (a Flag instance cannot hold a negative number)
         bad = rng.choice(cands)
         v2 = copy.deepcopy(v)
         set_path(v2, path, bad)
